@@ -99,7 +99,10 @@ func ParseSignature(data string) (*Signature, error) {
 }
 
 func (s *Signature) parse(data string) error {
-	o, err := jose.ParseSigned(data, joseSignatureAlgorithms)
+	// signatures are always written in the compact form: anything else (the
+	// JSON serialisations, which may hold several signatures) could not be
+	// written back
+	o, err := jose.ParseSignedCompact(data, joseSignatureAlgorithms)
 	if err != nil {
 		return fmt.Errorf("dsig: %w", err)
 	}
